@@ -548,12 +548,13 @@ def mpi_from_str(s, prec):
             lower, upper = x+y+e, x+z+e
             # the two digit groups may come in either order (with a
             # negative shared prefix the larger digits give the lower
-            # endpoint)
-            if mpf_gt(from_str(lower, wp, round_floor),
-                      from_str(upper, wp, round_floor)):
-                lower, upper = upper, lower
+            # endpoint): the enclosure of both literals
             a = from_str(lower, prec, round_floor)
             b = from_str(upper, prec, round_ceiling)
+            a2 = from_str(upper, prec, round_floor)
+            b2 = from_str(lower, prec, round_ceiling)
+            if mpf_lt(a2, a): a = a2
+            if mpf_gt(b2, b): b = b2
             return a, b
     else:
         a = from_str(s, prec, round_floor)
